@@ -357,7 +357,11 @@ Fixpoint ite_fuel (fuel : nat) (ident : bool) (cnd t f : pyval) : G pyval :=
           | _ => static_raise TypeError end end
       | _ =>
           f' <- match t with PFxp _ _ => g <- ensurefxp f ;; ret (PFxp 0 g) | _ => ret f end ;;
-          d <- rec OSub t f' ;; m <- rec OMul cnd d ;; rec OAdd f' m
+          d <- rec OSub t f' ;; m <- rec OMul cnd d ;; r <- rec OAdd f' m ;;
+          match t, f, r with
+          | PBool _ _, PBool _ _, PLC x => mkbool x              (* a selection between two booleans is a boolean: LinCombBool(ret, False) *)
+          | _, _, _ => ret r
+          end
       end
   | _ => static_raise RuntimeError
   end.
